@@ -711,6 +711,7 @@ func init() {
 			"(E6.vpn-index) the RT index follows every table update and compares old/new best on every non-ADD-PATH path; (E5.rtc-reevaluate) who may change membership, and the re-evaluation condition over all valuations of (withdraw, known-before, known-after); (E6.rtc-filter) the export-side RTC test; (E1.refresh-exclusion) membership changes and their re-advertisement run under the peer's exclusive route-refresh lock. Also: (E6.import-test-total) CanImportToVrf says false only after the loop over all extended communities; (E6.withdrawals-first) soft reset out merges withdrawals before advertisements.",
 		Not: "The three-way relation between routes, memberships and VRFs over all histories (exactly-the-needed advertisements), and the contents of the rtmSet/VPNPathIndex maps after arbitrary sequences, are not decided.",
 		Run: func(c *Ctx) {
+			c.ruleRatchets("C17")
 			c.ruleVrfImportGate()
 			c.ruleVrfExport()
 			c.ruleVPNIndex()
